@@ -62,8 +62,12 @@ CONFIG = {
     "C17": {"shard": 400},
 }
 
-try:
-    import stages
-    stages.install(CONFIG)
-except ImportError:
-    pass
+# plug-ins: every bin/stage_*.py may define install(CONFIG, EXTRA_TB, ASSUME) to add
+#   CONFIG[pid]["structural"] = fn(ctx) -> [(name, ok, detail)]      regenerated obligations
+#   CONFIG[pid]["stages"]     = [fn(ctx) -> {"name","ok","detail","coverage","violations":[(path,suffix)],"known":[lines],"broken":str}]
+# ctx keys: pid, tier, seed, rundir, root, coq, exe (harness binary), run(cmd,cwd,timeout,env), goenv, log, replay
+import glob, importlib
+for _f in sorted(glob.glob(os.path.join(os.path.dirname(os.path.abspath(__file__)), "stage_*.py"))):
+    _m = importlib.import_module(os.path.basename(_f)[:-3])
+    if hasattr(_m, "install"):
+        _m.install(CONFIG, EXTRA_TB, ASSUME)
